@@ -25,6 +25,8 @@ package inmem
 //@   | ite(dynIs(m, "types.NodeInformation"), as(m, "types.NodeInformation").Id,
 //@   | ite(dynIs(m, "types.RootCertificates"), as(m, "types.RootCertificates").Id, as(m, "types.ServerLedActivationToken").Id)))
 
+//@ pred listPre(m) := ite(dynIs(m, "types.NodeCredentials"), "nodecreds/", ite(dynIs(m, "types.NodeInformation"), "nodeinfo/", "roots/"))
+
 //@ func storage/inmem.subPathFromMsg
 //@   nopanic[C19]
 //@   ensures[C19,* known] err == nil <==> known(msg)
@@ -62,6 +64,34 @@ package inmem
 //@   ensures[C19,* failed] err != nil ==> sameView(t)
 //@   ensures[C19,* wf] wfStorage(ts)
 //@   modifies tree(ts.root)
+
+// listValues: exactly the ids present under the sub path, each once. The loop ranges over the
+// map copy of the tree; rangeVisited(k) is the ghost set of keys the iteration has yielded.
+//@ func storage/inmem.(*Storage).listValues
+//@   let t = ts.root
+//@   let pre = subPath + "/"
+//@   requires[wf] wfStorage(ts)
+//@   nopanic[C19]
+//@   ensures[C19,* failclosed] err != nil ==> ret == nil
+//@   ensures[C19,* sound] err == nil ==> forall j Int :: 0 <= j && j < len(ret) ==> rtHas(t, pre + ret[j])
+//@   ensures[C19,* complete] err == nil ==> forall k String :: rtHas(t, k) && hasPrefix(k, pre) ==> exists j Int :: 0 <= j && j < len(ret) && pre + ret[j] == k
+//@   ensures[C19,* nodup] err == nil ==> forall i Int, j Int :: 0 <= i && i < j && j < len(ret) ==> ret[i] != ret[j]
+//@   ensures[C19,* readonly] sameView(t) && wfStorage(ts)
+//@   loop 0 invariant[listed] fresh(paths) && forall j Int :: 0 <= j && j < len(paths) ==> rtHas(t, pre + paths[j]) && rangeVisited(pre + paths[j])
+//@   loop 0 invariant[nodup] forall i Int, j Int :: 0 <= i && i < j && j < len(paths) ==> paths[i] != paths[j]
+//@   loop 0 invariant[complete] forall k String :: rangeVisited(k) && hasPrefix(k, pre) ==> exists j Int :: 0 <= j && j < len(paths) && pre + paths[j] == k
+//@   loop 0 invariant[visited] forall k String :: rangeVisited(k) ==> rtHas(t, k)
+
+//@ func storage/inmem.(*Storage).List
+//@   let t = ts.root
+//@   requires[wf] wfStorage(ts)
+//@   nopanic[C19]
+//@   ensures[C19 refused] !(dynIs(msg, "types.NodeCredentials") || dynIs(msg, "types.NodeInformation") || dynIs(msg, "types.RootCertificates")) ==> err != nil
+//@   ensures[C19 failclosed] err != nil ==> ret == nil
+//@   ensures[C19 sound] err == nil ==> forall j Int :: 0 <= j && j < len(ret) ==> rtHas(t, listPre(msg) + ret[j])
+//@   ensures[C19 complete] err == nil ==> forall k String :: rtHas(t, k) && hasPrefix(k, listPre(msg)) ==> exists j Int :: 0 <= j && j < len(ret) && listPre(msg) + ret[j] == k
+//@   ensures[C19 nodup] err == nil ==> forall i Int, j Int :: 0 <= i && i < j && j < len(ret) ==> ret[i] != ret[j]
+//@   ensures[C19 readonly] sameView(t) && wfStorage(ts)
 
 //@ func storage/inmem.(*Storage).Store
 //@   let t = ts.root
